@@ -347,6 +347,7 @@ class World:
         w.inlined = {}
         w.renamed = {}
         if known is not None:
+            _alias_renamed_fields(w)
             _alias_renamed(w, known)
             _inline_new_helpers(w, known)
         _sink_ref_writes(w)
@@ -564,6 +565,58 @@ def _inline_new_helpers(w, known, max_rounds=3, max_blocks=400):
         w.bodies.pop(c, None)
     w._children = None
     w._callers = None
+
+
+def _alias_renamed_fields(w):
+    """A field of a repository struct / enum variant that disappeared while exactly one new field of the same type appeared in the
+    same struct is a rename: every place projection, aggregate and ADT entry is rewritten to the reference name
+    (rules/known_fields.json), so rules that name fields keep working."""
+    p = os.path.join(os.path.dirname(os.path.dirname(os.path.dirname(os.path.abspath(__file__)))), "rules", "known_fields.json")
+    w.renamed_fields = {}
+    if not os.path.exists(p):
+        return
+    ref = json.load(open(p))
+    alias = {}
+    for aid, a in w.adts.items():
+        if not a.get("local"):
+            continue
+        tys = w.tys[a["crate"]]
+        for v in a["variants"]:
+            k = aid if a["kind"] != "enum" else f"{aid}::{v['name']}"
+            if k not in ref:
+                continue
+            old = [(n, t) for n, t in ref[k]]
+            new = [(f["name"], tys[f["ty"]]["s"] if "ty" in f else None) for f in v["fields"]]
+            oldn, newn = {n for n, _ in old}, {n for n, _ in new}
+            missing = [(n, t) for n, t in old if n not in newn]
+            added = [(n, t) for n, t in new if n not in oldn]
+            for n, t in missing:
+                cand = [a_ for a_, t2 in added if t2 == t]
+                if len(cand) == 1 and sum(1 for _, t3 in missing if t3 == t) == 1 and not n.isdigit():
+                    alias[(k, cand[0])] = n
+                    for f in v["fields"]:
+                        if f["name"] == cand[0]:
+                            f["name"] = n
+    if not alias:
+        return
+    w.renamed_fields = {f"{k}::{a}": n for (k, a), n in alias.items()}
+    owners = {k for k, _ in alias}
+
+    def walk(x):
+        if isinstance(x, dict):
+            if "f" in x and "o" in x and (x["o"], x["f"]) in alias:
+                x["f"] = alias[(x["o"], x["f"])]
+            if x.get("k") == "agg" and x.get("fields"):
+                ow = x.get("adt") if not x.get("variant") or x.get("adt") in owners else f"{x.get('adt')}::{x.get('variant')}"
+                if ow in owners:
+                    x["fields"] = [alias.get((ow, f), f) for f in x["fields"]]
+            for v_ in x.values():
+                walk(v_)
+        elif isinstance(x, list):
+            for v_ in x:
+                walk(v_)
+    for b in w.bodies.values():
+        walk(b.blocks)
 
 
 def _sink_ref_writes(w):
